@@ -903,6 +903,20 @@ fn oom<F: CKind>(args: &Args) {
             let live = s.live();
             let (a, b) = (live[0], live[live.len() - 1]);
             s.bin("and", Some(a), Some(b));
+            if F::HAS_ZOPS {
+                // make_node with ONE invalid child: "takes ownership of hi and lo" holds for the
+                // valid one all the same (the caller must not unref it afterwards)
+                let top = s.snap_top_var();
+                if let Some(var) = s.zconst("singleton", top) {
+                    if let Some(c) = s.zvar("subset0", Some(a), top) {
+                        for pos in 0..2 {
+                            s.make_node_one_invalid(var, c, pos);
+                        }
+                        s.cunref(c);
+                    }
+                    s.cunref(var);
+                }
+            }
             s.bin("xor", Some(a), Some(b));
             s.obs();
             calls += s.calls;
